@@ -442,6 +442,15 @@ pub struct Outcome {
     pub exit: i32,
 }
 
+/// What a check's extra stratum (worker processes, cross-process comparison …) adds to the batch totals.
+#[derive(Default)]
+pub struct ExtraStats {
+    pub evaluations: u64,
+    pub distinct_nontrivial: u64,
+    pub counters: BTreeMap<String, u64>,
+    pub samples: Vec<Value>,
+}
+
 fn truncate_value(v: &Value, max: usize) -> Value {
     let s = serde_json::to_string(v).unwrap_or_default();
     if s.len() <= max {
@@ -457,7 +466,7 @@ pub fn run_check<C: Check>(
     check: &C,
     ctx: &Ctx,
     batches: &[(&str, usize)],
-    extra: impl FnOnce(&mut BTreeMap<String, Value>, &mut Vec<String>) -> Vec<(Failure, Value)>,
+    extra: impl FnOnce(&mut BTreeMap<String, Value>, &mut Vec<String>, &mut ExtraStats) -> Vec<(Failure, Value)>,
 ) -> Outcome {
     let t0 = Instant::now();
     let id = check.id();
@@ -566,7 +575,14 @@ pub fn run_check<C: Check>(
     });
     let mut extra_cov: BTreeMap<String, Value> = BTreeMap::new();
     let mut extra_assumptions: Vec<String> = Vec::new();
-    let extra_fail = extra(&mut extra_cov, &mut extra_assumptions);
+    let mut extra_stats = ExtraStats::default();
+    let extra_fail = extra(&mut extra_cov, &mut extra_assumptions, &mut extra_stats);
+    total.evaluations += extra_stats.evaluations;
+    total.distinct_nontrivial += extra_stats.distinct_nontrivial;
+    for (k, v) in extra_stats.counters {
+        *total.counters.entry(k).or_insert(0) += v;
+    }
+    total.samples.extend(extra_stats.samples);
 
     if total.determinism_divergences > 0 && id != "C12" {
         eprintln!(
